@@ -17,28 +17,39 @@
 (* Orders: 0 relaxed 2 acquire 3 release 4 acq_rel 5 seq_cst.               *)
 (* One writer (NW modify calls) and NR readers (one or two reads each);     *)
 (* the payload copies are ordinary memory: an open write window on a copy   *)
-(* while a reader reads that copy is the violation (ReaderIsolation).       *)
+(* while a reader reads that copy is the violation (ReaderIsolation); an    *)
+(* access to a copy that does not happen-after the previous conflicting     *)
+(* access is the other (NoRace; happens-before through per-thread           *)
+(* pseudo-locations carried by the same views).                             *)
 (***************************************************************************)
 EXTENDS Naturals, Integers, Sequences, FiniteSets, TLC
 CONSTANTS NW, NR, NReads,
           O_WLoadRL, O_StoreRL, O_WLoadCL, O_Drain, O_StoreCL,     \* writer sites
           O_RLoadCL, O_RInc, O_RLoadRL, O_RDec                     \* reader sites
-VARIABLES mem, view, lastsc, busy, wpc, wn, wl, rpc, rn, rc, rside
-vars == <<mem, view, lastsc, busy, wpc, wn, wl, rpc, rn, rc, rside>>
+VARIABLES mem, view, lastsc, busy, wpc, wn, wl, rpc, rn, rc, rside, pacc, race
+vars == <<mem, view, lastsc, busy, wpc, wn, wl, rpc, rn, rc, rside, pacc, race>>
 Locs == {"rl", "cl", "cntL", "cntR"}
 Readers == 1..NR
 W == 0                       \* the writer's thread id
 Thr == {W} \cup Readers
-Bot == [l \in Locs |-> 1]    \* every location starts with its initial message (timestamp 1)
+\* Happens-before for the (plain) payload copies: every thread has a private pseudo-location; finishing an access window
+\* advances the thread's own timestamp there, and views carry it along release/acquire edges exactly like atomic timestamps.
+\* An access to a copy races with an earlier conflicting access by thread u unless the accessor's view of u's pseudo-location
+\* has reached the timestamp of that access.
+PLoc(t) == <<"p0", "p1", "p2", "p3", "p4">>[t + 1]
+VLocs == Locs \cup {PLoc(t) : t \in Thr}
+Bot == [l \in VLocs |-> 1]   \* every location starts with its initial message (timestamp 1)
 Acq(o) == o \in {2, 4, 5}
 Rel(o) == o \in {3, 4, 5}
-Join(a, b) == [l \in Locs |-> IF a[l] >= b[l] THEN a[l] ELSE b[l]]
+Join(a, b) == [l \in VLocs |-> IF a[l] >= b[l] THEN a[l] ELSE b[l]]
 Init ==
     /\ mem = [l \in Locs |-> <<[val |-> IF l \in {"rl", "cl"} THEN 1 ELSE 0, view |-> Bot]>>]
     /\ view = [t \in Thr |-> Bot] /\ lastsc = [l \in Locs |-> 1]
     /\ busy = [s \in {"L", "R"} |-> FALSE]
     /\ wpc = "w1" /\ wn = 1 /\ wl = [rl |-> 1, cl |-> 1]
     /\ rpc = [r \in Readers |-> "r1"] /\ rn = [r \in Readers |-> 1] /\ rc = [r \in Readers |-> "cntL"] /\ rside = [r \in Readers |-> "L"]
+    /\ pacc = [s \in {"L", "R"} |-> [t \in Thr |-> 0]]     \* timestamp (in PLoc(t)) of t's last finished access to copy s; 0 = none
+    /\ race = FALSE
 
 \* timestamps thread t may read from location l with order o
 Readable(t, l, o) == {i \in 1..Len(mem[l]) : i >= view[t][l] /\ (o = 5 => i >= lastsc[l])}
@@ -68,55 +79,66 @@ Other(s) == IF s = "L" THEN "R" ELSE "L"
 Cnt(b) == IF b = 1 THEN "cntL" ELSE "cntR"
 URW == UNCHANGED <<rpc, rn, rc, rside>>
 URR == UNCHANGED <<wpc, wn, wl>>
+UP == UNCHANGED <<pacc, race>>
+\* a write to copy s begins: it must happen after every earlier access (read or write) to s
+WBegin(s) == race' = (race \/ \E u \in Readers : view[W][PLoc(u)] < pacc[s][u])
+\* a read of copy s by r begins: it must happen after the writer's last write to s
+RBegin(r, s) == race' = (race \/ view[r][PLoc(W)] < pacc[s][W])
+\* an access window of t on copy s ends: t's own pseudo-location advances
+AccEnd(t, s) == LET n == view[t][PLoc(t)] + 1 IN
+    /\ view' = [view EXCEPT ![t][PLoc(t)] = n]
+    /\ pacc' = [pacc EXCEPT ![s][t] = n]
 
 \* ---- writer: load rl; f(first); store !rl; load cl; drain other counter; store !cl; drain this counter; f(second)
 Writer ==
     \/ /\ wpc = "w1" /\ wn <= NW
        /\ \E i \in Readable(W, "rl", O_WLoadRL) :
             /\ wl' = [wl EXCEPT !.rl = mem["rl"][i].val] /\ view' = [view EXCEPT ![W] = LoadView(W, "rl", O_WLoadRL, i)]
-       /\ wpc' = "f1b" /\ UNCHANGED <<mem, lastsc, busy, wn>> /\ URW
-    \/ /\ wpc = "f1b" /\ busy' = [busy EXCEPT ![Other(Side(wl.rl))] = TRUE] /\ wpc' = "f1e" /\ UNCHANGED <<mem, view, lastsc, wn, wl>> /\ URW
-    \/ /\ wpc = "f1e" /\ busy' = [busy EXCEPT ![Other(Side(wl.rl))] = FALSE] /\ wpc' = "w2" /\ UNCHANGED <<mem, view, lastsc, wn, wl>> /\ URW
-    \/ /\ wpc = "w2" /\ StoreEff(W, "rl", O_StoreRL, 1 - wl.rl) /\ wpc' = "w3" /\ UNCHANGED <<busy, wn, wl>> /\ URW
+       /\ wpc' = "f1b" /\ UNCHANGED <<mem, lastsc, busy, wn>> /\ URW /\ UP
+    \/ /\ wpc = "f1b" /\ busy' = [busy EXCEPT ![Other(Side(wl.rl))] = TRUE] /\ wpc' = "f1e" /\ WBegin(Other(Side(wl.rl))) /\ UNCHANGED <<mem, view, lastsc, wn, wl, pacc>> /\ URW
+    \/ /\ wpc = "f1e" /\ busy' = [busy EXCEPT ![Other(Side(wl.rl))] = FALSE] /\ wpc' = "w2" /\ AccEnd(W, Other(Side(wl.rl))) /\ UNCHANGED <<mem, lastsc, wn, wl, race>> /\ URW
+    \/ /\ wpc = "w2" /\ StoreEff(W, "rl", O_StoreRL, 1 - wl.rl) /\ wpc' = "w3" /\ UNCHANGED <<busy, wn, wl>> /\ URW /\ UP
     \/ /\ wpc = "w3"
        /\ \E i \in Readable(W, "cl", O_WLoadCL) :
             /\ wl' = [wl EXCEPT !.cl = mem["cl"][i].val] /\ view' = [view EXCEPT ![W] = LoadView(W, "cl", O_WLoadCL, i)]
-       /\ wpc' = "d1" /\ UNCHANGED <<mem, lastsc, busy, wn>> /\ URW
+       /\ wpc' = "d1" /\ UNCHANGED <<mem, lastsc, busy, wn>> /\ URW /\ UP
     \* drain loops: a load that reads 0 leaves the loop, any other value spins
     \/ /\ wpc = "d1"
        /\ \E i \in Readable(W, Cnt(1 - wl.cl), O_Drain) :
             /\ view' = [view EXCEPT ![W] = LoadView(W, Cnt(1 - wl.cl), O_Drain, i)]
             /\ wpc' = IF mem[Cnt(1 - wl.cl)][i].val = 0 THEN "w4" ELSE "d1"
-       /\ UNCHANGED <<mem, lastsc, busy, wn, wl>> /\ URW
-    \/ /\ wpc = "w4" /\ StoreEff(W, "cl", O_StoreCL, 1 - wl.cl) /\ wpc' = "d2" /\ UNCHANGED <<busy, wn, wl>> /\ URW
+       /\ UNCHANGED <<mem, lastsc, busy, wn, wl>> /\ URW /\ UP
+    \/ /\ wpc = "w4" /\ StoreEff(W, "cl", O_StoreCL, 1 - wl.cl) /\ wpc' = "d2" /\ UNCHANGED <<busy, wn, wl>> /\ URW /\ UP
     \/ /\ wpc = "d2"
        /\ \E i \in Readable(W, Cnt(wl.cl), O_Drain) :
             /\ view' = [view EXCEPT ![W] = LoadView(W, Cnt(wl.cl), O_Drain, i)]
             /\ wpc' = IF mem[Cnt(wl.cl)][i].val = 0 THEN "f2b" ELSE "d2"
-       /\ UNCHANGED <<mem, lastsc, busy, wn, wl>> /\ URW
-    \/ /\ wpc = "f2b" /\ busy' = [busy EXCEPT ![Side(wl.rl)] = TRUE] /\ wpc' = "f2e" /\ UNCHANGED <<mem, view, lastsc, wn, wl>> /\ URW
-    \/ /\ wpc = "f2e" /\ busy' = [busy EXCEPT ![Side(wl.rl)] = FALSE] /\ wpc' = "w1" /\ wn' = wn + 1 /\ UNCHANGED <<mem, view, lastsc, wl>> /\ URW
+       /\ UNCHANGED <<mem, lastsc, busy, wn, wl>> /\ URW /\ UP
+    \/ /\ wpc = "f2b" /\ busy' = [busy EXCEPT ![Side(wl.rl)] = TRUE] /\ wpc' = "f2e" /\ WBegin(Side(wl.rl)) /\ UNCHANGED <<mem, view, lastsc, wn, wl, pacc>> /\ URW
+    \/ /\ wpc = "f2e" /\ busy' = [busy EXCEPT ![Side(wl.rl)] = FALSE] /\ wpc' = "w1" /\ wn' = wn + 1 /\ AccEnd(W, Side(wl.rl)) /\ UNCHANGED <<mem, lastsc, wl, race>> /\ URW
 
 \* ---- reader: load cl; counter++; load rl; read the copy (two steps); counter--
 Reader(r) ==
     \/ /\ rpc[r] = "r1" /\ rn[r] <= NReads
        /\ \E i \in Readable(r, "cl", O_RLoadCL) :
             /\ rc' = [rc EXCEPT ![r] = Cnt(mem["cl"][i].val)] /\ view' = [view EXCEPT ![r] = LoadView(r, "cl", O_RLoadCL, i)]
-       /\ rpc' = [rpc EXCEPT ![r] = "r2"] /\ UNCHANGED <<mem, lastsc, busy, rn, rside>> /\ URR
-    \/ /\ rpc[r] = "r2" /\ RmwEff(r, rc[r], O_RInc, 1) /\ rpc' = [rpc EXCEPT ![r] = "r3"] /\ UNCHANGED <<busy, rn, rc, rside>> /\ URR
+       /\ rpc' = [rpc EXCEPT ![r] = "r2"] /\ UNCHANGED <<mem, lastsc, busy, rn, rside>> /\ URR /\ UP
+    \/ /\ rpc[r] = "r2" /\ RmwEff(r, rc[r], O_RInc, 1) /\ rpc' = [rpc EXCEPT ![r] = "r3"] /\ UNCHANGED <<busy, rn, rc, rside>> /\ URR /\ UP
     \/ /\ rpc[r] = "r3"
        /\ \E i \in Readable(r, "rl", O_RLoadRL) :
             /\ rside' = [rside EXCEPT ![r] = Side(mem["rl"][i].val)] /\ view' = [view EXCEPT ![r] = LoadView(r, "rl", O_RLoadRL, i)]
-       /\ rpc' = [rpc EXCEPT ![r] = "r4"] /\ UNCHANGED <<mem, lastsc, busy, rn, rc>> /\ URR
-    \/ /\ rpc[r] = "r4" /\ rpc' = [rpc EXCEPT ![r] = "r5"] /\ UNCHANGED <<mem, view, lastsc, busy, rn, rc, rside>> /\ URR
-    \/ /\ rpc[r] = "r5" /\ rpc' = [rpc EXCEPT ![r] = "r6"] /\ UNCHANGED <<mem, view, lastsc, busy, rn, rc, rside>> /\ URR
+       /\ rpc' = [rpc EXCEPT ![r] = "r4"] /\ UNCHANGED <<mem, lastsc, busy, rn, rc>> /\ URR /\ UP
+    \/ /\ rpc[r] = "r4" /\ rpc' = [rpc EXCEPT ![r] = "r5"] /\ RBegin(r, rside[r]) /\ UNCHANGED <<mem, view, lastsc, busy, rn, rc, rside, pacc>> /\ URR
+    \/ /\ rpc[r] = "r5" /\ rpc' = [rpc EXCEPT ![r] = "r6"] /\ AccEnd(r, rside[r]) /\ UNCHANGED <<mem, lastsc, busy, rn, rc, rside, race>> /\ URR
     \/ /\ rpc[r] = "r6" /\ RmwEff(r, rc[r], O_RDec, -1) /\ rpc' = [rpc EXCEPT ![r] = "r1"] /\ rn' = [rn EXCEPT ![r] = @ + 1]
-       /\ UNCHANGED <<busy, rc, rside>> /\ URR
+       /\ UNCHANGED <<busy, rc, rside>> /\ URR /\ UP
 Next == Writer \/ \E r \in Readers : Reader(r)
 Spec == Init /\ [][Next]_vars
 -----------------------------------------------------------------------------
 \* C07 / C03: a reader that has determined its side and not yet left never coincides with a write window on that copy
 ReaderIsolation == \A r \in Readers : rpc[r] \in {"r4", "r5", "r6"} => ~busy[rside[r]]
+\* C07: every access to a payload copy happens-after the conflicting accesses that precede it (no data race)
+NoRace == ~race
 \* keep the message lists finite: the drain loops may re-read, the counters are bounded by the program
 Bound == \A l \in Locs : Len(mem[l]) <= 2 + 2 * NW + 2 * NR * NReads
 =============================================================================
